@@ -1,10 +1,13 @@
 import Netconan.Driver.Ip
 import Netconan.Driver.Jun
+import Netconan.Driver.Fa
 /-! The model driver: one operation per line on stdin, one reply per line on stdout. -/
 namespace Netconan.Driver
 
 structure St where
   ips : List (String × IpObj) := []
+  fas : List (String × FaObj) := []
+  env : FaEnv := {}
 
 def stepLine (st : St) (line : String) : St × String :=
   let ws := (line.trimAscii.toString.splitOn " ").filter (· != "")
@@ -13,17 +16,29 @@ def stepLine (st : St) (line : String) : St × String :=
   | none =>
   match junCmd ws with
   | some out => (st, out)
+  | none =>
+  match faCmd st.env st.fas ws with
+  | some (out, fas) => ({ st with fas := fas }, out)
   | none => (st, "bad-op")
 
 partial def loop (h : IO.FS.Stream) (out : IO.FS.Stream) (st : St) : IO Unit := do
   let line ← h.getLine
   if line.isEmpty then return ()
+  let ws := (line.trimAscii.toString.splitOn " ").filter (· != "")
+  match ws with
+  | ["loadreserved", path] =>
+    let txt ← IO.FS.readFile path
+    let words := (txt.splitOn "\n").filter (· != "") |>.map parseCps
+    let set := words.foldl (fun (s : Std.HashSet String) w => s.insert (String.ofList w)) {}
+    out.putStrLn s!"ok {words.length}"
+    loop h out { st with env := { st.env with reserved := set, reservedList := words } }
+  | _ =>
   let (st', o) := stepLine st line
   out.putStrLn o
   loop h out st'
 
 def main : IO Unit := do
   let out ← IO.getStdout
-  loop (← IO.getStdin) out {}
+  loop (← IO.getStdin) out { env := { lower := mkLower } }
 
 end Netconan.Driver
